@@ -29,6 +29,9 @@ type C13Params struct {
 	// UnknownSID: every ClientHello of the run offers a session ID the server's store does not
 	// know (an attempt to resume a session the server has forgotten, or never had)
 	UnknownSID int `json:"unknown_sid,omitempty"` // 0 none, else length of the offered ID
+	// StoreFaultPm: per-mille of the server store's operations that misbehave (error, miss,
+	// garbage): a store that reports "not found" as an error is a store all the same
+	StoreFaultPm int `json:"store_fault_pm,omitempty"`
 }
 
 var c13Alters = []string{"random", "sessionid", "suites", "compression", "ext-add", "ext-drop", "ext-change", "version"}
@@ -75,6 +78,9 @@ func c13Gen(r *rand.Rand, tier string, idx int) any {
 	if r.IntN(3) == 0 {
 		p.Store = p.Store || r.IntN(2) == 0
 		p.UnknownSID = []int{1, 4, 32}[r.IntN(3)]
+		if p.Store {
+			p.StoreFaultPm = []int{0, 300, 1000}[r.IntN(3)]
+		}
 	}
 	p.NoBack = r.IntN(3) == 0
 	p.FlightMs = []int{0, 50, 300}[r.IntN(3)]
@@ -331,7 +337,7 @@ func c13Run(rc *RunCtx, params any) {
 	cspec.ALPN, sspec.ALPN = []string{"a", "b"}, []string{"a", "b"}
 	env := &Env{Stores: map[string]dtls.SessionStore{}}
 	if p.Store {
-		env.Stores["sstore"] = NewSimStore(s, "sstore", 0)
+		env.Stores["sstore"] = NewSimStore(s, "sstore", p.StoreFaultPm)
 		sspec.Store = "sstore"
 	}
 	// a genuine ClientHello to work from: let a real client emit its first flight into the void
